@@ -216,6 +216,116 @@ def eval_records(ctx, module, cfg_text, records, keyfn, whatfn=None, idx_var="i"
     return res
 
 
+# ---- parts of one check run side by side (C07 / C08: one part per instruction set) --------------
+_MERGE_NUM = ("states", "transitions", "traces_validated_against_impl", "evaluations")
+
+
+def run_parts(ctx, parts, jobs=4):
+    """Run `parts` = [(name, fn)] (fn(ctx) -> truthy when the replay case was its own) in forked child
+    processes, at most `jobs` at a time, and merge what they recorded into `ctx`.  Each child works on a
+    copy of ctx (own workdir, own rng stream derived from the seed and the part name) and prints its own
+    VIOLATION lines; the parent merges coverage, violations and known-finding hits.  A machinery failure
+    in any part is re-raised in the parent."""
+    import pickle
+    import struct
+    pending = list(parts)
+    running = {}
+    results = {}
+    order = [n for n, _ in parts]
+
+    def start(name, fn):
+        r, w = os.pipe()
+        sys.stdout.flush()
+        pid = os.fork()
+        if pid == 0:
+            os.close(r)
+            code = 0
+            try:
+                ctx.rng = random.Random("%s/%s" % (ctx.seed, name))
+                ctx.workdir = tempfile.mkdtemp(prefix="verif_%s_%s_" % (ctx.prop, name))
+                base = {k: ctx.cov[k] for k in _MERGE_NUM}
+                nruns, nviol, nsamp, nnotes = len(ctx.cov["tlc_runs"]), len(ctx.violations), len(ctx.cov["samples"]), len(ctx.notes)
+                hits0 = {k: h["n"] for k, h in ctx.known_hits.items()}
+                ctx.cov["rule"] = ""
+                out = {"name": name}
+                try:
+                    out["own"] = bool(fn(ctx))
+                except tlcmod.MachineryError as e:
+                    out["machinery"] = str(e)[:4000]
+                out.update({
+                    "num": {k: ctx.cov[k] - base[k] for k in _MERGE_NUM},
+                    "tlc_runs": ctx.cov["tlc_runs"][nruns:], "actions": ctx.cov["actions"],
+                    "samples": ctx.cov["samples"][nsamp:], "rule": ctx.cov["rule"],
+                    "distinct": ctx._distinct, "violations": ctx.violations[nviol:],
+                    "known_hits": {k: dict(h, n=h["n"] - hits0.get(k, 0)) for k, h in ctx.known_hits.items()
+                                   if h["n"] > hits0.get(k, 0)}, "notes": ctx.notes[nnotes:], "assumptions": ctx.assumptions,
+                    "extra": {k: v for k, v in ctx.cov.items() if k not in _MERGE_NUM and k not in (
+                        "tlc_runs", "actions", "samples", "rule", "distinct_nontrivial")},
+                })
+                data = pickle.dumps(out)
+                with os.fdopen(w, "wb") as f:
+                    f.write(struct.pack("<Q", len(data)))
+                    f.write(data)
+                shutil.rmtree(ctx.workdir, ignore_errors=True)
+            except BaseException:
+                import traceback
+                traceback.print_exc()
+                code = 3
+            sys.stdout.flush()
+            os._exit(code)
+        os.close(w)
+        running[pid] = (name, r)
+
+    while pending or running:
+        while pending and len(running) < jobs:
+            start(*pending.pop(0))
+        # read the result of any finished child (read first: a child blocks on a full pipe otherwise)
+        import select
+        ready, _, _ = select.select([r for _, r in running.values()], [], [])
+        for pid, (name, r) in list(running.items()):
+            if r not in ready:
+                continue
+            with os.fdopen(r, "rb") as f:
+                head = f.read(8)
+                data = f.read(struct.unpack("<Q", head)[0]) if len(head) == 8 else b""
+            _, status = os.waitpid(pid, 0)
+            del running[pid]
+            if not data:
+                raise tlcmod.MachineryError("part %s of %s died (status %s)" % (name, ctx.prop, status))
+            results[name] = pickle.loads(data)
+            break
+    own = False
+    rules = []
+    for name in order:
+        out = results[name]
+        if "machinery" in out:
+            raise tlcmod.MachineryError("part %s: %s" % (name, out["machinery"]))
+        own = own or out["own"]
+        for k in _MERGE_NUM:
+            ctx.cov[k] += out["num"][k]
+        ctx.cov["tlc_runs"] += out["tlc_runs"]
+        for k, v in out["actions"].items():
+            ctx.cov["actions"][k] = max(ctx.cov["actions"].get(k, 0), v)
+        for smp in out["samples"]:
+            if len(ctx.cov["samples"]) < 12:
+                ctx.cov["samples"].append(smp)
+        if out["rule"]:
+            rules.append("[%s] %s" % (name, out["rule"]))
+        ctx._distinct |= out["distinct"]
+        ctx.violations += out["violations"]
+        for pat, hit in out["known_hits"].items():
+            h = ctx.known_hits.setdefault(pat, {"entry": hit["entry"], "n": 0, "first": hit["first"]})
+            h["n"] += hit["n"]
+        ctx.notes += out["notes"]
+        for a in out["assumptions"]:
+            ctx.assume(a)
+        for k, v in out["extra"].items():
+            ctx.cov.setdefault(k, v)
+    if rules:
+        ctx.cov["rule"] = (ctx.cov["rule"] + " " if ctx.cov["rule"] else "") + " ".join(rules)
+    return own
+
+
 def main(engines, argv=None):
     import argparse
 
